@@ -81,6 +81,12 @@ def main(argv=None):
                 raise AnalysisError(f'{prop}.selftest', ','.join(st['missed']),
                                     'SELFTEST-MISS: the checker did not report '
                                     'a seeded breakage it is designed to catch')
+            # a breakage that used to yield a finding must not degrade to fail-closed (engine regression)
+            regress = sorted(set(st['fail_closed']) & set(selftest.expected_caught(prop)))
+            if regress:
+                raise AnalysisError(f'{prop}.selftest', ','.join(regress),
+                                    'SELFTEST-REGRESSION: a seeded breakage that was reported as a finding now only '
+                                    'fails closed: ' + str(st['detail'][regress[0]])[:200])
         new, old = classify(ctx.findings)
         for f, k in old:
             print(f'KNOWN-FINDING: property={prop} {k["what"]} [{f.key}]')
